@@ -155,7 +155,9 @@ fn scenario_for(prop: &str) -> Option<Box<dyn coord::Scenario>> {
         "C02" => Some(Box::new(scen::w1::W1Scenario { prop: "C02" })),
         "C03" => Some(Box::new(scen::w1::W1Scenario { prop: "C03" })),
         "C04" => Some(Box::new(scen::w2::W2Scenario { prop: "C04" })),
+        "C05" => Some(Box::new(scen::w2::W2Scenario { prop: "C05" })),
         "C07" => Some(Box::new(scen::crash::CrashScenario)),
+        "C15" => Some(Box::new(scen::w3::W3Scenario)),
         _ => None,
     }
 }
